@@ -79,7 +79,7 @@ func runC20(c *vkit.Ctx, lab *Lab, r *rand.Rand, i int) {
 	}
 	// goroutine-issued calls have no defined per-test order: use distinct files per call there is not needed,
 	// ordinals only have to be consumed exactly once each - outcomes are tallied, not predicted.
-	res := lab.P.RunChild(RunOpt{PkgDir: lab.PkgDir, Scenario: lc.withSkips(), Count: lc.Count, Update: lc.Update, CI: lc.CI})
+	res := lab.P.RunChild(RunOpt{PkgDir: lab.PkgDir, Scenario: lc.withSkips(), Count: lc.Count, Extra: lc.Flags, Update: lc.Update, CI: lc.CI})
 	in := labSample(lc)
 	in["ci"] = lc.CI
 	if !res.Complete {
